@@ -165,7 +165,61 @@ func c18Sequences() (int, []report.Viol) {
 			}
 		}
 	}
+	// a LONG-LIVED stream: faults injected while the stream is open (it was opened
+	// with an empty set) must hit its later messages, exactly count times
+	for _, kind := range []string{"recv", "send"} {
+		set := faults.NewSet("verif")
+		op := "StreamingPull:RecvMsg"
+		if kind == "send" {
+			op = "StreamingPull:SendMsg"
+		}
+		match := &pubsubpb.StreamingPullRequest{Subscription: "projects/p/subscriptions/x"}
+		other := &pubsubpb.StreamingPullRequest{Subscription: "projects/p/subscriptions/y"}
+		inner := &fakeServerStream{ctx: context.Background(), next: match}
+		var res []error
+		call := func(ss grpc.ServerStream, m *pubsubpb.StreamingPullRequest) {
+			inner.next = m
+			if kind == "recv" {
+				res = append(res, ss.RecvMsg(&pubsubpb.StreamingPullRequest{}))
+			} else {
+				res = append(res, ss.SendMsg(m))
+			}
+		}
+		err := mbgrpc.StreamFaultInjector(set)(nil, inner, &grpc.StreamServerInfo{FullMethod: subM + "StreamingPull"}, func(srv any, ss grpc.ServerStream) error {
+			call(ss, match) // 0: nothing configured
+			set.Add(faults.Description{Operation: op, Parameters: map[string]string{"subscription": "projects/p/subscriptions/x"}, Count: 2, OnFault: func(faults.Description, faults.Parameters) error { return errC18 }})
+			call(ss, other) // 1: does not match
+			call(ss, match) // 2: fails
+			call(ss, other) // 3
+			call(ss, match) // 4: fails
+			call(ss, match) // 5: exhausted
+			return nil
+		})
+		n += 6
+		want := []bool{false, false, true, false, true, false}
+		bad := err != nil || len(res) != len(want)
+		for i := range want {
+			if !bad && (res[i] != nil) != want[i] {
+				bad = true
+			}
+		}
+		left := 0
+		for _, l := range set.Current() {
+			left += len(l)
+		}
+		if bad || left != 0 {
+			viols = append(viols, report.Viol{Property: "C18", Check: "C18/call-sequences", Rule: "fault-sequence", Text: fmt.Sprintf("a fault {%s, subscription=x, count 2} injected while a stream was already open: its later messages x,y,x,y,x,x were failed %v (stream error %v), want exactly the 2nd and 4th matching... [false false true false true false]; %d faults still listed", op, failedList(res), err, left), Trace: []string{op, "injected mid-stream"}})
+		}
+	}
 	return n, viols
+}
+
+func failedList(res []error) []bool {
+	out := make([]bool, len(res))
+	for i, e := range res {
+		out[i] = e != nil
+	}
+	return out
 }
 
 func hasField(m proto.Message, text string) bool {
